@@ -189,8 +189,8 @@ ExtractResp(resp, from, to, st) ==
     NonEmptyPart([k \in DOMAIN resp |->
         SelectSeq(resp[k], LAMBDA t : from <= t /\ t <= to /\ (st <= 0 \/ (t - from) % st = 0))])
 
-(* The first timestamp of r's grid at or after t.  *)
-GridCeil(r, t) == r.s + CeilDiv(t - r.s, r.st) * r.st
+(* The last timestamp of r's grid at or before t (t >= r.s).  *)
+GridFloor(r, t) == r.s + ((t - r.s) \div r.st) * r.st
 
 (* partition: which pieces come from the extents and which sub-requests are still needed.      *)
 (* matching = the extents were found under an alternative (finer-step) key.                    *)
@@ -205,7 +205,7 @@ PartitionFrom(cfg, r, exts, i, start, reqs, cached) ==
          ELSE LET reqs2 == IF start < x.start THEN Append(reqs, [s |-> start, e |-> x.start, st |-> r.st]) ELSE reqs
                   piece == ExtractResp(x.resp, start, r.e, IF cfg.matching THEN r.st ELSE 0)
                   (* in matching-step mode the running start stays on the request's grid *)
-                  nstart == IF cfg.matching /\ cfg.gridfix THEN GridCeil(r, x.end) ELSE x.end
+                  nstart == IF cfg.matching /\ cfg.gridfix THEN GridFloor(r, x.end) ELSE x.end
               IN PartitionFrom(cfg, r, exts, i + 1, nstart, reqs2, Append(cached, piece))
 Partition(cfg, r, exts) ==
     LET p == PartitionFrom(cfg, r, exts, 1, r.s, <<>>, <<>>)
